@@ -199,6 +199,8 @@ def units(tier, seed):
     if not q:
         for k in range(48):
             us.append({"kind": "structured", "k": k, "seed": seed})
+    for k in range(6 if q else 12):
+        us.append({"kind": "structured", "k": k, "seed": seed, "n": (100, 150, 300)[k % 3]})
     return us
 
 
@@ -229,18 +231,21 @@ def run_unit(unit):
             if len(res.samples) < 1:
                 res.samples.append({"genomes": genomes, "fits": list(fits), "maximize": mx, "factor": factor, "trunc": trunc})
     else:
-        structured(res, unit["k"], unit["seed"])
+        structured(res, unit["k"], unit["seed"], unit.get("n"))
     res.status["ok"] += res.executions
     res.by_bound[0] += res.executions
     return res
 
 
-def structured(res, k, seed):
-    """60-point populations: clustered / collinear / grid, dimensions 1-8, fitness with ties."""
+def structured(res, k, seed, big_n=None):
+    """60-point populations: clustered / collinear / grid, dimensions 1-8, fitness with ties.
+    big_n: populations of 100-300 points in dimension 8-20 (beyond the small scope: block-wise / threshold-switched code paths)."""
     rng = np.random.RandomState(1000 + k + 7919 * (seed % 1000))
     dim = 1 + k % 8
     kind = ("clustered", "collinear", "grid")[k % 3]
     n = (60, 40, 25, 12)[(k // 3) % 4]
+    if big_n:
+        n, dim = big_n, (8, 12, 20)[k % 3]
     if kind == "clustered":
         centres = rng.randint(-40, 40, size=(3, dim))
         G = np.array([centres[i % 3] + rng.randint(-3, 4, size=dim) for i in range(n * 2)], dtype=float)
@@ -258,8 +263,9 @@ def structured(res, k, seed):
             rows.append(r)
     G = np.array(rows[:n])
     base = np.sum((G - G.mean(axis=0)) ** 2, axis=1)
-    for ties in (False, True):
-        fits = np.floor(base / (1 + base.max() / 6)) if ties else base + 1e-3 * np.arange(len(G))
+    for ties in ((False, True, 2) if big_n else (False, True)):
+        # (ties == 2: three fitness levels only, i.e. tie groups of about n/3 individuals)
+        fits = np.floor(base / (1 + base.max() / (2.5 if ties == 2 else 6))) if ties else base + 1e-3 * np.arange(len(G))
         for factor, trunc in PARAMS:
             for mx in (False, True):
                 f = -fits if mx else fits
